@@ -609,7 +609,9 @@ class _SegW(StandIn):
 class _CurveW(StandIn):
     """the queried curve: three vertices, three segments and a tabulated (unsorted, repeated) crossing list"""
     CROSSINGS = [(0, 5, Fr(3, 4), Fr(0)), (0, 7, Fr(1, 4), Fr(1, 2)), (2, 1, Fr(1, 2), Fr(0)), (0, 2, Fr(1, 2), Fr(1, 3)),
-                 (0, 3, Fr(1, 4), Fr(2, 3))]
+                 (0, 3, Fr(1, 4), Fr(2, 3)),
+                 # crossings at the very ends of a segment (a vertex of the curve lying on the boundary)
+                 (1, 4, Fr(0), Fr(1, 5)), (1, 6, Fr(1, 2), Fr(1, 7)), (2, 8, Fr(1), Fr(1, 9))]
 
     def __init__(self):
         self.segments = tuple(_SegW(i) for i in range(3))
@@ -645,13 +647,17 @@ def contains_jordan_world(ctx, out, parts=("vertices", "mids", "flag")):
     of segment 2 at 1/2.  Decided on the outcome of the run: which points were tested with which flag, and the result"""
     from verifkit.finite import Raised
     fn = ctx.fn("shape.SimpleShape._contains_jordan")
-    gaps = [(0, Fr(1, 4), Fr(1, 2)), (0, Fr(1, 2), Fr(3, 4))]
+    gaps = [(0, Fr(1, 4), Fr(1, 2)), (0, Fr(1, 2), Fr(3, 4)), (1, Fr(0), Fr(1, 2)), (2, Fr(1, 2), Fr(1))]
     scen = [("everything inside", lambda p: False, True),
             ("vertex 1 outside", lambda p: p == ("pt", 1, Fr(0)), False),
             ("curve leaves between the crossings at 1/2 and 3/4 of segment 0",
              lambda p: p[1] == 0 and Fr(1, 2) < p[2] < Fr(3, 4), False),
             ("curve leaves between the crossings at 1/4 and 1/2 of segment 0",
-             lambda p: p[1] == 0 and Fr(1, 4) < p[2] < Fr(1, 2), False)]
+             lambda p: p[1] == 0 and Fr(1, 4) < p[2] < Fr(1, 2), False),
+            ("curve leaves between the crossing at its vertex (parameter 0) and 1/2 of segment 1",
+             lambda p: p[1] == 1 and Fr(0) < p[2] < Fr(1, 2), False),
+            ("curve leaves between the crossings at 1/2 and its end vertex (parameter 1) of segment 2",
+             lambda p: p[1] == 2 and Fr(1, 2) < p[2] < Fr(1), False)]
     bad = set()
     for flag in (True, False):
         for label, outside, want in scen:
@@ -674,10 +680,10 @@ def contains_jordan_world(ctx, out, parts=("vertices", "mids", "flag")):
                 if not all(any(p[1] == i and a < p[2] < b for p in pts) for i, a, b in gaps):
                     bad.add(("mids", "no test of curve points between consecutive crossings"))
             if bool(got) != want:
-                if "vertex" in label:
-                    bad.add(("vertices", "the vertices of the curve are not all tested"))
-                elif "between" in label:
+                if "between" in label:
                     bad.add(("mids", "no test of curve points between consecutive crossings"))
+                elif "vertex" in label:
+                    bad.add(("vertices", "the vertices of the curve are not all tested"))
                 else:
                     bad.add(("vertices", "a curve whose sampled points are all contained is reported as not contained"))
     for part, fact in sorted(bad):
